@@ -327,7 +327,9 @@ PROPS["C15"] = dict(
     level_text="swap / cut / collapse (and the orientation routine, anchor algebra) transcribed in Gallina and compared with the "
                "implementation; the property (triangles stay triangles, well-formedness, V/E/F deltas, vertex set, exact area "
                "conservation, orientation after collapse, swap = other diagonal, anchors) is an executable Coq predicate "
-               "applied to every implementation observation; proved: atomicity of failures and the area identities of swap and cut (C15_swap_conserves_area, C15_cut_conserves_area)",
+               "applied to every implementation observation; proved: atomicity of failures, the area identities of swap and cut (C15_swap_conserves_area, C15_cut_conserves_area), "
+               "and for ALL maps the well-formedness clause of swap and of the boundary cut (C15_swap_keeps_wf2, "
+               "C15_cut_outer_keeps_wf2, Map2/KernWf.v); inner cut and collapse: well-formedness per observation",
     technique="Coq model of the kernels + correspondence + extracted Coq specification (exact arithmetic) as per-run validator",
     families=[
         Family("kern-remesh", "core2", r_kern("remesh", 1200, 20000, 8), 1, [(9, "remesh_spec", REM_CLASSES)]),
